@@ -296,7 +296,9 @@ def run(ctx):
                      "waitpid); -k only in the pinned fail-fast scenarios",
                      "constructs of the checked tree, detected by behaviour (wait-for-room, worker tests the command "
                      "timeout itself, dsh() stops the watchdog before returning): %s; the theorems hold for every "
-                     "combination" % (variant,)],
+                     "combination; worker waits a grace period and SIGKILLs a command it gave up on (repair of "
+                     "F07-TEARDOWN-WAIT (a); if so, runs with a given-up target are judged by the monitors only): %s"
+                     % (variant, getattr(ctx, "killafter", None))],
         trusted_base=["Lean 4.33 kernel", "axioms: propext, Classical.choice, Quot.sound at most (audited per theorem)",
                       "hand-written LTS Dsh/Timed.lean + Dsh/TimedK.lean (over Dsh/FanG.lean) tied to dsh.c by trace acceptance",
                       "Gen/Dsh.lean regenerated from /repo (WDOG_POLL)",
